@@ -275,6 +275,14 @@ class C18Engine(Engine):
             if tape.chance(25):
                 path = tape.choice(world.abs_targets())
                 cls = 'abs'
+            elif tape.chance(15):
+                # paths that leave the root and come back in by its own name, through a component
+                # that may not exist yet (what the kernel resolves and what normalisation says can differ)
+                leaf = tape.choice(['f.txt', 'sub', 'ünï.txt', 'g.swift'])
+                path = tape.choice(['../%s/../out', '../out/%s', 'sub/../../out/%s', '../%s/../out/%s',
+                                    '%s/../../out', '../out/../out/%s', './../out/%s/']) \
+                    .replace('%s', leaf)
+                cls = 'rel'
             else:
                 segs = [tape.choice(SEGS) for _ in range(tape.rng(1, 4))]
                 path = '/'.join(segs)
